@@ -1303,6 +1303,8 @@ def plainify(v: t.Any, in_key: bool = False) -> t.Any:
     # instances of subclasses of interchange types (user subclasses, mixin enum members) -> the plain value
     if isinstance(v, enum.Enum):
         return plainify(v.value, in_key)
+    if type(v) is bytearray:
+        return bytes(v)     # (serialised as bytes: at an untyped position a bytearray does not come back as one)
     for base in (bool, int, float, complex, str, bytes, bytearray):
         if isinstance(v, base):
             return v if type(v) is base else base(v) if base is not str else str.__str__(v)
